@@ -43,6 +43,12 @@ def streams(tier, rng, P, only=None, cases=None):
             nm = rng.choice(cmd_names)
             srcs.append(rng.choice(["Function %s(N){ Result = N + 12 } Int K = %s(48) n(K)", "FUNCTION %s(N){ RETURN(N+1) } PRINT(%s(2)) c",
                                     "Int %s=3; PRINT(%s) c", "STR %s={c d}; %s e"]) % (nm, nm))
+        # byte-level layout of the source file: line ends, byte-order mark, line breaks inside strings and comments — the command-line tool
+        # must hand the library's entry point the text as it is
+        srcs += ['TrackName={"ab\r\ncd"}\r\nl8 cde\r\n', 'Text{"a\rb"} c\rd', "\ufeffc d e", "c\r\nd\r\ne\r\n", "/* x\r\ny */ c\r\n", "PRINT({a\r\nb}) c\r\n",
+                 'Lyric={"la\r\n"} c\n\n\r\n', "STR S={c\r\nd} S\r\n", 'Copyright={"x\ty \u3000z"}\tc', "c \u2028 d", 'TrackName={"a\r\n\r\nb"} r c\r']
+        for _ in range(40 if big else 8):
+            srcs.append(mml.pr(mml.gen_program(rng, depth=2, maxlen=6), sep="\r\n") + rng.choice(["\r\n", "", "\r"]) + rng.choice(['TrackName={"p\r\nq"}', 'Text{"x\r\n"}', ""]))
         srcs += [s for s in mml.sample_sources()]
         # variants: entry x debug x lang, each in nproc fresh processes
         variants = [(e, d, l) for e in ("lib", "midi", "obj") for d in (0, 1) for l in ("en", "ja")]
